@@ -9,15 +9,15 @@ UNITS_LOCAL = {"C10": [
          repo_src=["rkcommon/utility/ParameterizedObject.cpp", "rkcommon/utility/demangle.cpp"],
          flags=ASAN, env=_ENV, opt="-O1", engine="seqmc",
          budget={"quick": 100, "thorough": 1000},
-         rule=("every history of D mutating operations, each replayed on a fresh object inside a forked ASan+UBSan shard (every shorter history is a checked prefix). "
+         rule=("every history of 1..D mutating operations, shortest first, each replayed on a fresh object inside a forked ASan+UBSan shard and torn down afterwards. "
                "FlatMap<int,int> with D=6 (thorough 7) and FlatMap<string,string> (one key and one value longer than the small-string buffer) with D=5 (6), "
                "3 keys x 2 values, alphabet of 15: m[k]=v (6), erase(k) (3), read m[k] which inserts a default (3), clear, at(k1)=v (throws for an absent key), reserve(8); "
-               "after every step of every history: contents through begin/end, const begin/end, cbegin/cend and the three reverse ranges, size/empty, at_index(i) const/non-const for all i, "
-               "contains(k) for the 3 keys and a never inserted key, at(k) const/non-const for every present key, const at(k) must throw std::out_of_range for the absent key "
-               "the operation touched (for every absent key after clear and in histories of length <= 3), then the contents again (queries must not mutate) - "
+               "after the last step of every history (= after every step of every history, as all prefixes are histories too): contents through begin/end, const begin/end, cbegin/cend and the three reverse ranges, "
+               "size/empty, at_index(i) const/non-const for all i, contains(k) for the 3 keys and a never inserted key, at(k) const/non-const for every present key, const at(k) must throw "
+               "std::out_of_range for the absent key the operation touched (for every absent key after clear and in histories of length <= 3), then the contents again (queries must not mutate) - "
                "all compared with an array find-or-append reference. "
                "ParameterizedObject through a subclass exposing params_begin/end, D=6 (7), names {a,b}, alphabet of 14: setParam<int> (a: 2 values, b: 1), setParam<float> (a,b), setParam<string> (a), "
-               "getParam<int|float> (a,b), getParam<string> (a), removeParam (a,b), resetAllParamQueryStatus; after every step the ordered (name, exact type, value, query flag) list is compared, "
+               "getParam<int|float> (a,b), getParam<string> (a), removeParam (a,b), resetAllParamQueryStatus; every return value is compared, the ordered (name, exact type, value, query flag) list is compared, "
                "and hasParam(a,b,c) and getParam<double|long>(a,b,c) must answer absent/default without changing anything. "
                "Two histories are distinct when their operation sequences differ; distinct outcomes = distinct (operation, result, resulting ordered contents)."),
          assumptions=["setParam on an existing name keeps its query flag (the statement changes it only through a successful read and resetAllParamQueryStatus); a removed and re-set name starts unqueried",
